@@ -16,11 +16,11 @@ import (
 )
 
 type Env struct {
-	P      *load.Program
-	R      *report.Ctx
-	Tier   string
-	Verif  string // /verif
-	ctlMap map[string]*load.Program
+	P        *load.Program
+	R        *report.Ctx
+	Tier     string
+	Verif    string // /verif
+	ctlMap   map[string]*load.Program
 	gm       *wiring.GoModel
 	ym       *wiring.YModel
 	modelErr bool
